@@ -35,4 +35,55 @@ def read (b : Bytes) : Except Err (List Nat × List Nat) :=
 def linkName (meshDir : String) (label : Nat) (noColon : Bool) : String :=
   meshDir ++ "/" ++ toString label ++ (if noColon then "" else ":0")
 
+/-! ### `mesh.affine_transform_mesh`, polymorphic in the scalar type
+    (the driver runs it over `Int`; the theorems hold over every ordered commutative ring) -/
+
+structure V3 (α : Type) where
+  x : α
+  y : α
+  z : α
+  deriving Repr, DecidableEq
+
+/-- the 3×3 linear part, rows `(a b c)`, `(d e f)`, `(g h i)` -/
+structure M3 (α : Type) where
+  a : α
+  b : α
+  c : α
+  d : α
+  e : α
+  f : α
+  g : α
+  h : α
+  i : α
+  deriving Repr
+
+section Affine
+variable {α : Type} [Add α] [Mul α] [Sub α]
+
+def M3.det (m : M3 α) : α :=
+  m.a * (m.e * m.i - m.f * m.h) - m.b * (m.d * m.i - m.f * m.g) + m.c * (m.d * m.h - m.e * m.g)
+
+/-- `R @ v + t` -/
+def M3.apply (m : M3 α) (t v : V3 α) : V3 α :=
+  ⟨m.a * v.x + m.b * v.y + m.c * v.z + t.x,
+   m.d * v.x + m.e * v.y + m.f * v.z + t.y,
+   m.g * v.x + m.h * v.y + m.i * v.z + t.z⟩
+
+/-- `np.flip(triangles, axis=1)` on one triangle -/
+def flipTri (t : Nat × Nat × Nat) : Nat × Nat × Nat := (t.2.2, t.2.1, t.1)
+
+/-- `affine_transform_mesh`: every vertex is mapped; triangles are flipped iff `det R < 0` -/
+def affineTransform [Zero α] [LT α] [DecidableLT α] (m : M3 α) (t : V3 α) (vs : List (V3 α))
+    (ts : List (Nat × Nat × Nat)) : List (V3 α) × List (Nat × Nat × Nat) :=
+  (vs.map (m.apply t), if m.det < 0 then ts.map flipTri else ts)
+
+/-- orientation of the triangle `(a, b, c)` seen from the reference point `p`: six times the signed
+    volume of the tetrahedron `(p, a, b, c)`; positive iff `p` is on the inner side of an
+    outward-wound triangle -/
+def orient (p a b c : V3 α) : α :=
+  (M3.mk (a.x - p.x) (a.y - p.y) (a.z - p.z) (b.x - p.x) (b.y - p.y) (b.z - p.z)
+         (c.x - p.x) (c.y - p.y) (c.z - p.z)).det
+
+end Affine
+
 end NgVerif.Mesh
